@@ -224,6 +224,14 @@ def check_c13(out, tier):
     # output file vs returned string, also for outputs that cross the serializer's 5 000-line flush boundary
     for j, c in enumerate(base_cases(rnd, 12 * k, "c13f", ors=False)):
         items.append({"id": c["id"], "rel": "present", "how": "file", "a": c, "b": with_cfg(c, sink="file")})
+    # very wide classes: a ratio just below 100 % (249 / 250, 2 499 / 2 500) prints as "100" with few decimals - the constraint
+    # is below 100 % all the same
+    for j, (n, dec) in enumerate([(250, 0), (400, 0), (2500, 1)] if tier == "quick" else [(250, 0), (400, 0), (2500, 1), (2500, 0), (201, 0), (1000, 0)]):
+        T = [(M.iri(M.EX + "w%d" % i), M.RDF_TYPE, M.iri(M.EX + "Wide")) for i in range(n)]
+        T += [(M.iri(M.EX + "w%d" % i), M.EX + "nick", M.lit("n")) for i in range(n - 1)]
+        T += [(M.iri(M.EX + "w%d" % i), M.EX + "name", M.lit("m")) for i in range(n)]
+        w = gen.case("c13w%d" % j, T, report="mixed", decimals=-1, comments=True, allCompliant=rnd.random() < .7)
+        items.append({"id": w["id"], "rel": "present", "how": "decimals, %d instances" % n, "a": w, "b": with_cfg(w, decimals=dec)})
     big = gen.case("c13big", many_shapes(700 if tier == "quick" else 1500), report="mixed")
     items.append({"id": "c13big", "rel": "present", "how": "file>5000 lines", "a": big, "b": with_cfg(big, sink="file")})
     campaign(out, "C13", items, mine)
